@@ -146,7 +146,7 @@ func (a *agg) add(property string, r *lineResult) {
 		a.harnessErr = append(a.harnessErr, fmt.Sprintf("run %d seed %x: %s", r.Index, r.Seed, r.HarnessErr))
 	}
 	for _, v := range r.Violations {
-		if v.Property() != property {
+		if v.Property() != property && os.Getenv("VERIF_ALL_ASSERTIONS") == "" {
 			a.otherProps[v.Assertion]++
 			continue
 		}
